@@ -106,6 +106,11 @@ thread_local! {
     static SKEW_MS: Cell<i64> = const { Cell::new(0) };
 }
 
+/// Clock skew (ms) of the task being polled.
+pub fn cur_skew_ms() -> i64 {
+    SKEW_MS.with(|s| s.get())
+}
+
 pub fn cur() -> Option<Rc<Sim>> {
     CUR.with(|c| c.borrow().clone())
 }
@@ -290,12 +295,19 @@ impl Sim {
         self.tape.borrow().exhausted
     }
 
+    /// New tasks run on the clock (skew) of the task that spawns them.
     pub fn spawn<F: Future<Output = ()> + 'static>(&self, name: &str, fut: F) -> TaskId {
-        self.spawn_opts(name, true, 0, fut)
+        self.spawn_opts(name, true, cur_skew_ms(), fut)
     }
 
     pub fn spawn_bg<F: Future<Output = ()> + 'static>(&self, name: &str, fut: F) -> TaskId {
-        self.spawn_opts(name, false, 0, fut)
+        self.spawn_opts(name, false, cur_skew_ms(), fut)
+    }
+
+    /// Virtual milliseconds (on the global clock) of an instant taken from the *current task's*
+    /// clock, which may be skewed.
+    pub fn ms_of_local(&self, i: std::time::Instant) -> i64 {
+        self.ms_of(i) - cur_skew_ms()
     }
 
     pub fn spawn_opts<F: Future<Output = ()> + 'static>(
